@@ -43,6 +43,7 @@ type Vector struct {
 	Predicted json.RawMessage `json:"predicted,omitempty"`
 	Notes     []NoteRec       `json:"notes,omitempty"`
 	ID        int             `json:"id,omitempty"`
+	Partial   bool            `json:"partial,omitempty"` // a decided prefix only: the rest of the inputs are zero values
 }
 
 // Value is one recorded nondeterministic value, in creation order.
@@ -75,6 +76,9 @@ func pop(kind string) int64 {
 		cur.pos++
 	}
 	if cur.pos >= len(cur.vec.Values) {
+		if cur.vec.Partial {
+			return 0
+		}
 		panic(fmt.Sprintf("vrt: replay vector exhausted at value %d (%s)", cur.pos, kind))
 	}
 	v := cur.vec.Values[cur.pos]
